@@ -55,6 +55,8 @@ class MayKnobs(nested.NKnobs):
         self.p_handler_raises = 0.06
         self.p_cmd = 0.06             # per scripted invocation: the callback issues a may_ / trigger itself
         self.cmd_budget = 3
+        self.max_handlers = 2
+        self.single_stage = False     # truncate every callback stage to one callback (async classes comparable)
         self.deterministic = False
         self.__dict__.update(kw)
 
@@ -62,6 +64,15 @@ class MayKnobs(nested.NKnobs):
 def gen_may(rng, kn):
     d = nested.gen_nested(rng, kn)
     nodes = d.walk()
+    if kn.single_stage:
+        for _p, n in nodes:
+            n['on_enter'] = n['on_enter'][:1]
+            n['on_exit'] = n['on_exit'][:1]
+        for _s, _e, _i, t in d.all_trans():
+            for k in ('prepare', 'conds', 'before', 'after'):
+                t[k] = t[k][:1]
+        for k in ('prepare_event', 'before_sc', 'after_sc', 'finalize'):
+            setattr(d, k, getattr(d, k)[:1])
     known = sorted(set([e for e, _ in d.events] + [e for _p, n in nodes for e, _ts in n['local']]))
     unknown = (max(known) if known else 0) + 3
     d.history = [(rng.choice(kn.hist_kinds), 0, ev) for ev in d.history]
@@ -81,7 +92,7 @@ def gen_may(rng, kn):
     # handlers
     if kn.p_on_exception and rng.random() < kn.p_on_exception:
         nxt = max(d.cb_slot) + 1 if d.cb_slot else 0
-        for _ in range(rng.randint(1, 2)):
+        for _ in range(rng.randint(1, kn.max_handlers)):
             d.cb_slot[nxt] = SLOT['on_exception']
             d.on_exception.append(nxt)
             nxt += 1
@@ -498,6 +509,7 @@ def stats(st, d, run, deterministic, ntw, ntrue):
     bump('nested_depth', max(len(p) for p, _n in nodes))
     bump('nested_queued', int(d.queued))
     bump('nested_handlers', len(d.on_exception))
+    bump('nested_async_class_compared', int(single_stage(d)))
     bump('nested_local_declarations', min(3, sum(len(ts) for _p, n in nodes for _e, ts in n['local'])))
     shape = 'single'
     for v in run.states_after:
@@ -533,6 +545,8 @@ STREAMS = {
     'nested-model-small': (lambda: MayKnobs(max_states=6, max_depth=3, max_branch=3, p_cmd=0.1), False),
     'nested-model-parallel': (lambda: MayKnobs(max_roots=1, p_compound=0.9, p_parallel=0.85, p_noinit=0.0, p_deep_initial=0.0,
                                                max_states=8, max_depth=3), False),
+    # every callback stage holds at most one callback: HierarchicalAsyncMachine is compared with the model as well
+    'nested-model-async': (lambda: MayKnobs(single_stage=True, max_handlers=1, p_parallel=0.6), False),
     'nested-twin-parallel': (lambda: MayKnobs(deterministic=True, p_bad_dest=0.0, p_on_exception=0.0, max_history=3, p_queued=0.0,
                                               p_cond_false=0.45, max_roots=1, p_compound=0.9, p_parallel=0.85, p_noinit=0.0,
                                               p_deep_initial=0.0, max_states=8, max_depth=3), True),
